@@ -388,6 +388,14 @@ func runCheck(root, prop, tier string, makeBaseline, verbose, keep bool, onlyFn 
 	for _, a := range assumed {
 		trusted = append(trusted, "assumed contract: "+a)
 	}
+	var acl []string
+	for k := range eng.assumedClauses {
+		acl = append(acl, k)
+	}
+	sort.Strings(acl)
+	for _, k := range acl {
+		trusted = append(trusted, "assumed postcondition (relied on by callers, not proved of the body): "+k)
+	}
 	for _, t := range trustedFns {
 		trusted = append(trusted, "trusted (body not verified): "+t)
 	}
@@ -525,7 +533,7 @@ func writeReplay(eng *Engine, dir, prop string, o *Obligation) (string, bool) {
 	}
 	if !replayed && searchable && o.Result.Status != "sat" && o.Result.Status != "unsat" {
 		if wf, ok := weakenedModel(origQuery); ok {
-			o.queryFile, o.weakened = wf, true
+			o.queryFile, o.weakened, o.fullQuery = wf, true, origQuery
 			rec["status"] = "sat (with quantified assumptions left out; candidate input only)"
 			replayed = try("model of the query without quantified assumptions")
 			o.queryFile, o.weakened = origQuery, false
